@@ -1,10 +1,7 @@
 // Command mc is the otto model-checking harness: `mc check <ID> --tier quick|thorough`.
+// Each check registers itself from a reg_<id>.go file in this directory.
 package main
 
-import (
-	"verif/mc/engine"
-
-	_ "verif/mc/checks/c14"
-)
+import "verif/mc/engine"
 
 func main() { engine.Main() }
